@@ -46,18 +46,18 @@ impl<'de, R: Reader<'de>> Parser<R> {
     pub fn parse_number(&mut self, first: u8) -> (res: Result<ParserNumber>)
         requires old(self).pinv(), old(self).read.idx() >= 1, first == old(self).read.data()[old(self).read.idx() - 1], first == 0x2d || is_digit(first),
             old(self).nospace_start == -128 || old(self).nospace_start <= old(self).read.idx() - 1,
-        ensures final(self).pinv(), final(self).same_doc(old(self)), res.is_err() ==> (res->Err_0).has_pos,
+        ensures final(self).pinv(), final(self).same_doc(old(self)), res.is_err() ==> err_ok(res->Err_0, old(self).read.data()),
     { unimplemented!() }
     #[verifier::external_body]
     pub fn parse_str<'own>(&mut self, buf: &'own mut Vec<u8>) -> (res: Result<Reference<'de, 'own, str>>)
         requires old(self).pinv(),
-        ensures final(self).pinv(), final(self).same_doc(old(self)), res.is_err() ==> (res->Err_0).has_pos,
+        ensures final(self).pinv(), final(self).same_doc(old(self)), res.is_err() ==> err_ok(res->Err_0, old(self).read.data()),
     { unimplemented!() }
 
 //@extract file=src/parser.rs impl="Parser<R>" fn=fix_position
 //@sig
         requires self.pinv(),
-        ensures res.has_pos, err.has_pos ==> res == err,
+        ensures res.has_pos, err.has_pos ==> res == err, !err.has_pos ==> err_ok(res, self.read.data()),
 //@end
 
 //@extract file=src/parser.rs impl="Parser<R>" fn=peek_invalid_type
@@ -71,8 +71,8 @@ impl<'de, R: Reader<'de>> Parser<R> {
         requires old(self).pinv(), old(self).read.idx() >= 1, peek == old(self).read.data()[old(self).read.idx() - 1],
             old(self).nospace_start == -128 || old(self).nospace_start <= old(self).read.idx() - 1,
         ensures final(self).pinv(), final(self).same_doc(old(self)),
-            // C20: whatever it found, the error leaves with a position
-            res.has_pos,
+            // C20: whatever it found, the error leaves with a position, inside the input
+            err_ok(res, old(self).read.data()),
 //@end
 }
 
